@@ -79,7 +79,7 @@ type liveQuery struct {
 }
 
 var filterCols = map[string][]string{
-	"row_a": {"id", "shard", "i8", "u8", "u16", "b", "s", "n", "by", "t"},
+	"row_a": {"id", "shard", "i8", "u8", "u16", "b", "s", "n", "by", "t", "MixedCol"},
 	"row_b": {"id", "shard", "p_i", "p_i32", "p_u16", "p_b", "p_s", "p_t"},
 	"row_c": {"key", "shard", "tx", "p_tx", "bin", "i_n_s", "ini", "sc", "p_sc", "bin_o"},
 }
